@@ -36,7 +36,7 @@ ASSUMPTIONS = [
     "order differs between threads)",
 ]
 NONTRIVIAL = ["cell"]
-DEADLINE = {"quick": 70, "thorough": 900}
+DEADLINE = {"quick": 90, "thorough": 900}
 
 QUICK_SC = ["ssl3-rsa", "tls10-dhe_rsa", "tls11-ecdhe_rsa-clientauth",
             "tls12-ecdhe_ecdsa", "tls12-resume-ticket", "tls12-srp_rsa",
